@@ -252,6 +252,7 @@ def cases(tier, seed):
     for shape in [(1,), (3,), (2, 2), (2, 1, 3), (12,)]:
         out.append({"k": "arrays", "s": list(shape)})
     out.append({"k": "names"})
+    out.append({"k": "twins"})
     for i0 in range(0, n, 22):
         out.append({"k": "sympy", "i0": i0, "i1": min(n, i0 + 22)})
     return out
@@ -294,6 +295,12 @@ def run_case(case, R):
                 t = list({e: c for e, c in t}.items())
                 render_and_check(R, spec(names, (), t), f"{names} {t}", DISPLAY, SIGNS[:3], ["0-d", "names"])
                 render_and_check(R, spec(names, (2,), [(e, [c, -c]) for e, c in t]), f"{names} {t} array", DISPLAY[:2], SIGNS[:2], ["array", "names"])
+    elif k == "twins":
+        # colliding inputs printed one after the other in one process (state shared between two prints)
+        for cfg in (DISPLAY[0], DISPLAY[5]):
+            for i, sp in enumerate(space.twin_sequence()):
+                R.state(("twins", i, cfg))
+                render_and_check(R, sp, f"twin {i} {sp['n']} {sp['t']}", [cfg], SIGNS[:1], ["twins"])
     elif k == "sympy":
         for i in range(case["i0"], case["i1"]):
             t = space.U0()[i]
